@@ -32,7 +32,17 @@ func (w *WasmRunner) Close() {
 	}
 }
 
+// Run executes a module.  A time-out (8 s) is confirmed by a second run with a 60 s limit
+// before it is reported (a starved worker thread on a loaded machine is not a hang).
 func (w *WasmRunner) Run(wasmPath string) (*WasmResult, error) {
+	r, err := w.run(wasmPath, 8000)
+	if err == nil && r.Status == "timeout" {
+		r, err = w.run(wasmPath, 60000)
+	}
+	return r, err
+}
+
+func (w *WasmRunner) run(wasmPath string, timeoutMs int) (*WasmResult, error) {
 	w.mu.Lock()
 	defer w.mu.Unlock()
 	if w.cp == nil || w.cp.Dead() {
@@ -43,7 +53,7 @@ func (w *WasmRunner) Run(wasmPath string) (*WasmResult, error) {
 		w.cp = cp
 	}
 	w.n++
-	req, _ := json.Marshal(map[string]any{"id": w.n, "wasm": wasmPath, "timeout_ms": 8000})
+	req, _ := json.Marshal(map[string]any{"id": w.n, "wasm": wasmPath, "timeout_ms": timeoutMs})
 	line, err := w.cp.Call(string(req))
 	if err != nil {
 		w.cp = nil
